@@ -13,7 +13,7 @@ CONSTANTS MaxHist,      \* length of a history
           Legacy
 
 VARIABLE hist
-vars == <<files, buf, cur, seq, hist>>
+vars == <<files, buf, cur, seq, sync, hist>>
 
 Init == WInit /\ hist = <<>>
 H(r) == hist' = Append(hist, r)
@@ -24,6 +24,7 @@ DoAppend == /\ Clean /\ NAppends < MaxAppends
             /\ AppendNode(NAppends + 1, seq + 1)
             /\ H([op |-> "Append", tok |-> NAppends + 1])
 DoFlush == Clean /\ Flush /\ H([op |-> "Flush"])
+DoSetSync == Clean /\ SetSync(~sync) /\ H([op |-> "SetSync", on |-> ~sync])
 DoCheckpoint == Clean /\ Checkpoint(seq + 1) /\ H([op |-> "Checkpoint"])
 DoReopen ==
     /\ IF Legacy THEN LegacyReopen
@@ -49,11 +50,11 @@ DoFlip ==
           /\ Flip(p[1], b, m)
           /\ H([op |-> "Flip", f |-> p[1], b |-> b, m |-> m])
 
-Next == DoAppend \/ DoFlush \/ DoCheckpoint \/ DoReopen \/ DoTruncate \/ DoFlip
+Next == DoAppend \/ DoFlush \/ DoSetSync \/ DoCheckpoint \/ DoReopen \/ DoTruncate \/ DoFlip
 Spec == Init /\ [][Next]_vars
 
 \* NAppends (hidden in hist) decides which steps are still enabled: part of state identity so that the cover is deterministic
-View == <<files, buf, cur, seq, NAppends>>
+View == <<files, buf, cur, seq, sync, NAppends>>
 Bound == Len(hist) <= MaxHist
 Emit == PrintT(<<"SCRIPT", ToJson(hist')>>)
 \* one script per fault transition (every truncation offset / every byte flip of every reachable state) ...
